@@ -25,6 +25,10 @@ import MirModel.Pattern
   * `np.max(M)` `npMaxMat`; `np.max(M, axis=0)` / `axis=1` `maxAxis0` / `maxAxis1` (`ValueError` when the reduced
     axis is empty and the result is not); `np.mean(v)` `npMean` = the hand model's `meanPy` (nan of an empty array
     is refused: `PyErr.other`)
+  * `O = np.zeros((len X, len Y, 2)); rel = np.empty((0, 2), dtype=int)` + nested loops whose body ends in
+    `if c: O[i, j, 0] = a; O[i, j, 1] = b; rel = np.vstack((rel, [i, j]))`   `fillOpt X Y f` (cells stored or left
+    at zero, and the list of stored index pairs in loop order); `O[:, :, k]` `plane0/1`; `rel[:, k]` `relCol0/1`;
+    `M[np.ix_(rows, cols)]` `ix` (rows and columns repeated as listed; `IndexError` outside)
   * `int / float(...)`              `divF`    Python float division: `ZeroDivisionError` on a zero divisor
   * `for x in xs:` with `break` / `continue` and loop-carried variables `forLoop xs s body`
   * `min(a, b)` on ints             `minInt`; `xs[:k]` = the hand model's `pySliceTo`
@@ -97,6 +101,41 @@ def maxAxis0 (m : Mat) : Py (List Rat) := (transpose m.ncols m.data).mapM maxL
 def maxAxis1 (m : Mat) : Py (List Rat) := m.data.mapM maxL
 def npMean (v : List Rat) : Py Rat := meanPy v
 
+/-- `O = np.zeros((len(xs), len(ys), 2))` with the cells the loops stored (`none` = left at its zeros) -/
+structure OMat where
+  nrows : Nat
+  ncols : Nat
+  data : List (List (Option (Rat × Rat)))
+
+/-- `O = np.zeros((len(xs), len(ys), 2)); rel = np.empty((0, 2), dtype=int)`, then for `i` (outer), `j` (inner):
+    `if c: O[i, j, 0] = a; O[i, j, 1] = b; rel = np.vstack((rel, [i, j]))` — `f` returns `some (a, b)` when the
+    branch is taken.  The index list is the list of the stored cells in loop order (the hand model's `relIdx`). -/
+def fillOpt {α β : Type} (xs : List α) (ys : List β) (f : α → β → Py (Option (Rat × Rat))) :
+    Py (OMat × List (Nat × Nat)) := do
+  let d ← xs.mapM fun x => ys.mapM fun y => f x y
+  pure (⟨xs.length, ys.length, d⟩, relIdx d)
+
+/-- `O[:, :, 0]`, `O[:, :, 1]` -/
+def plane0 (O : OMat) : Mat := ⟨O.nrows, O.ncols, O.data.map fun r => r.map fun c => (c.getD (0, 0)).1⟩
+def plane1 (O : OMat) : Mat := ⟨O.nrows, O.ncols, O.data.map fun r => r.map fun c => (c.getD (0, 0)).2⟩
+
+/-- `rel[:, 0]`, `rel[:, 1]` -/
+def relCol0 (rel : List (Nat × Nat)) : List Nat := rel.map fun a => a.1
+def relCol1 (rel : List (Nat × Nat)) : List Nat := rel.map fun a => a.2
+
+def getCell (d : List (List Rat)) (i j : Nat) : Py Rat :=
+  match d[i]? with
+  | none => .error .indexError
+  | some row =>
+    match row[j]? with
+    | none => .error .indexError
+    | some v => .ok v
+
+/-- `M[np.ix_(rows, cols)]`: the matrix of the cells `M[i, j]`, `i` in `rows`, `j` in `cols` (`IndexError` outside) -/
+def ix (M : Mat) (rows cols : List Nat) : Py Mat := do
+  let d ← rows.mapM fun i => cols.mapM fun j => getCell M.data i j
+  pure ⟨rows.length, cols.length, d⟩
+
 /-- Python `a / b` with a float divisor -/
 def divF (a b : Rat) : Py Rat := if b = 0 then .error .zeroDivision else .ok (a / b)
 
@@ -157,6 +196,11 @@ def handler : Handler := fun fn args =>
   | "pypat.maxaxis1", [r, c, p] => do
       let d ← asMat? p
       some ((maxAxis1 ⟨(← r.asNat?), (← c.asNat?), d⟩).map Val.ofRats)
+  | "pypat.ix", [p, r, c] => do
+      let d ← asMat? p
+      let r ← (← r.asList?).mapM Val.asNat?
+      let c ← (← c.asList?).mapM Val.asNat?
+      some ((ix ⟨d.length, 0, d⟩ r c).map ofMat)
   | "pypat.divF", [a, b] => do some ((divF (← a.asRat?) (← b.asRat?)).map .rat)
   | "pypat.minInt", [a, b] => do some (.ok (Val.ofInt (minInt (← a.asInt?) (← b.asInt?))))
   | "pypat.sliceTo", [p, k] => do some (.ok (Val.ofRats (pySliceTo (← p.asRats?) (← k.asInt?))))
